@@ -157,6 +157,20 @@ int main(int argc, char** argv) {
     for (ai = 3; ai < argc && strcmp(argv[ai], "--"); ai++) wargv[nargs++] = argv[ai];
     for (ai++; ai < argc; ai++) wenv[nenv++] = argv[ai];
     wenv[nenv] = NULL;
+    /* how the vectors handed to wasiInit lie in host memory is the embedder's business: VERIF_VEC_LAYOUT = "malloc" (every string
+       allocated separately, later entries first), "rotate" (the pointers rotated by one inside the contiguous block of strings that
+       the process received - what a permuting getopt leaves; the command line lists the strings rotated the other way, so the
+       logical vector is the same), "tails" (an entry that is a suffix of its predecessor points into the predecessor) */
+    if (getenv("VERIF_VEC_LAYOUT")) {
+        const char* lay = getenv("VERIF_VEC_LAYOUT"); int v_; char** vecs[2]; int cnt[2]; vecs[0] = wargv; vecs[1] = wenv; cnt[0] = nargs; cnt[1] = nenv;
+        for (v_ = 0; v_ < 2; v_++) {
+            char** vec = vecs[v_]; int n = cnt[v_], k;
+            if (!strcmp(lay, "malloc")) { for (k = n - 1; k >= 0; k--) vec[k] = strdup(vec[k]); }
+            else if (!strcmp(lay, "rotate") && n > 1) { char* last = vec[n - 1]; for (k = n - 1; k > 0; k--) vec[k] = vec[k - 1]; vec[0] = last; }
+            else if (!strcmp(lay, "midrev") && n > 3) { int a = 1, b = n - 2; while (a < b) { char* t_ = vec[a]; vec[a] = vec[b]; vec[b] = t_; a++; b--; } }   /* first and last stay, the middle is reversed */
+            else if (!strcmp(lay, "tails")) { for (k = 1; k < n; k++) { size_t a = strlen(vec[k - 1]), b = strlen(vec[k]); if (b <= a && !strcmp(vec[k - 1] + a - b, vec[k])) vec[k] = vec[k - 1] + a - b; } }
+        }
+    }
     mem = wasmMemoryAllocate(40, 40, false);
     before = malloc(MEMSIZE);
     if (!wasiInit(nargs, wargv, wenv)) return 2;
